@@ -160,6 +160,27 @@ def run_case(ctx, res, case, lines, post):
                                              'input': {**case, 'mode': mode, 'output': o, 'key_order': list(Xr),
                                                        'history': [list(a) + list(b) for a, b in hist]}})
             res.hit('reversed-input-key-order')
+        # the same derivatives through an executor (the per-index terms are computed by tasks that finish in any order and are
+        # paired with their weights afterwards): a thread pool and an executor that completes the tasks in reverse order
+        if len(iset) >= 2:
+            from concurrent.futures import ThreadPoolExecutor
+            from harness.c15 import ScheduledExecutor
+            for exname, mk in (('thread-pool-4', lambda: ThreadPoolExecutor(max_workers=4)),
+                               ('reverse-completion', lambda: ScheduledExecutor(lambda n: list(reversed(range(n)))))):
+                ex = mk()
+                try:
+                    je, he = comp.gradient(X, index_set=mode, executor=ex), comp.hessian(X, index_set=mode, executor=ex)
+                finally:
+                    ex.shutdown()
+                for o in out_names:
+                    for nm, a_, b_ in (('gradient', jac[o], je[o]), ('hessian', hes[o], he[o])):
+                        a_, b_ = np.asarray(a_, dtype=float), np.asarray(b_, dtype=float)
+                        if a_.shape != b_.shape or not np.allclose(a_, b_, rtol=1e-9, atol=1e-9 * ymax_guess(a_), equal_nan=True):
+                            res.failures.append({'kind': nm + '-through-an-executor-differs-from-serial',
+                                                 'input': {**case, 'mode': mode, 'output': o, 'executor': exname,
+                                                           'history': [list(a) + list(b) for a, b in hist]},
+                                                 'observed': a_.reshape(-1)[:6].tolist(), 'expected': b_.reshape(-1)[:6].tolist()})
+            res.hit('derivatives-through-executors')
         # the same points one at a time: node special cases are decided per batch in the code, so a batch that contains
         # node points can mask errors at the others (and vice versa)
         jac1 = {o: [] for o in out_names}
